@@ -297,8 +297,11 @@ def evaluate_aligner(rp):
         return '%s (%s, %s mask)' % (r[0], tag, rp['kind']), 'aligner:%s:%s' % (r[1], tag), coq
     # the same aligner object on other containers of the same values (layouts, integer typed binary masks, buffers refilled
     # in place since an earlier call)
-    cv = core.container_variants(lambda *a_: al.calculate_mapping(*a_), list(args), np.asarray(mapping),
-                                 lambda r_, e: np.array_equal(np.asarray(r_), e), recast_allow=('int',))
+    # (only where the mapping is an observable that does not depend on the summation order: tie-free masks)
+    cv = None
+    if pc.tie_free(rp['kind'], rp['metric'], T, K):
+        cv = core.container_variants(lambda *a_: al.calculate_mapping(*a_), list(args), np.asarray(mapping),
+                                     lambda r_, e: np.array_equal(np.asarray(r_), e), recast_allow=('int',))
     if cv:
         return '%s: %s' % (rp['which'], cv), 'aligner:container:' + tag, coq
     return None, None, coq
